@@ -271,7 +271,7 @@ func c15One(c *core.Ctx, r *core.Result, sc c15Scenario) {
 	per[era.Base] = c15Read(d.DBFile(), special)
 	d.DB.SetHooks(&sqlw.Hooks{After: func(op *sqlw.Op, err error) {
 		if op.Kind == "commit" && err == nil {
-			per[d.Node.Sync.Synced] = c15Read(d.DBFile(), special)
+			per[SyncedOf(d.DBFile())] = c15Read(d.DBFile(), special)
 		}
 	}})
 	out := run.Sync()
